@@ -48,6 +48,9 @@ func init() {
 			{ID: "C01-R20", Title: "operands are compiled in source order", Floor: 10, Run: operandsCompiledInSourceOrder},
 			{ID: "C01-R21", Title: "derived constructors copy every field (shared with C02-R11)", Floor: 1, Run: derivedConstructorsCopyEveryField},
 			{ID: "C01-R22", Title: "equality is decided by Equals", Floor: 1, Run: equalityIsDecidedByEquals},
+			{ID: "C01-R23", Title: "table indexes fit their 16-bit operand", Floor: 2, Run: tableIndexesFitTheirOperand},
+			{ID: "C01-R24", Title: "scratch buffers stay in the VM", Floor: 1, Run: scratchBuffersStayInTheVM},
+			{ID: "C01-R25", Title: "operator precedence fixed before advancing (shared with C20-R5)", Floor: 2, Run: c20r5},
 		},
 	})
 }
